@@ -3838,6 +3838,52 @@ fn main() {
             println!("stuck={}", verdicts.iter().filter(|x| x.ends_with("stuck")).count());
             std::process::exit(0);
         }
+        // disk_log_reuse : a database on the disk-backed temporary file system with log reuse: three rounds of (write two keys, overwrite
+        // one of the previous round, close, reopen); every acknowledged write must be read back after every reopen
+        "disk_log_reuse" => {
+            use raindb::{ReadOptions, WriteOptions};
+            let disk: std::sync::Arc<dyn raindb::fs::FileSystem> = std::sync::Arc::new(raindb::fs::TmpFileSystem::new(None));
+            let mut o = raindb::DbOptions::with_memory_env();
+            o.filesystem_provider = std::sync::Arc::clone(&disk);
+            o.db_path = "db".to_string();
+            o.create_if_missing = true;
+            o.reuse_log_files = true;
+            let mut model: std::collections::BTreeMap<Vec<u8>, Vec<u8>> = Default::default();
+            let (mut wrong, mut first) = (0usize, String::new());
+            for round in 0..3u32 {
+                {
+                    let db = raindb::DB::open(o.clone()).expect("open");
+                    for (k, val) in &model {
+                        let got = db.get(ReadOptions::default(), k);
+                        if got.as_ref().ok() != Some(val) {
+                            wrong += 1;
+                            if first.is_empty() { first = format!("round {}: {} reads {:?}", round, String::from_utf8_lossy(k), got.map(|x| String::from_utf8_lossy(&x).to_string())); }
+                        }
+                    }
+                    for j in 0..2u32 {
+                        let (k, val) = (format!("key{}-{}", round, j).into_bytes(), format!("value{}-{}", round, j).into_bytes());
+                        db.put(WriteOptions::default(), k.clone(), val.clone()).unwrap();
+                        model.insert(k, val);
+                    }
+                    if round > 0 {
+                        let (k, val) = (format!("key{}-0", round - 1).into_bytes(), format!("overwritten in round {}", round).into_bytes());
+                        db.put(WriteOptions::default(), k.clone(), val.clone()).unwrap();
+                        model.insert(k, val);
+                    }
+                }
+            }
+            let db = raindb::DB::open(o.clone()).expect("final open");
+            for (k, val) in &model {
+                let got = db.get(ReadOptions::default(), k);
+                if got.as_ref().ok() != Some(val) {
+                    wrong += 1;
+                    if first.is_empty() { first = format!("final: {} reads {:?}", String::from_utf8_lossy(k), got.map(|x| String::from_utf8_lossy(&x).to_string())); }
+                }
+            }
+            println!("keys={}", model.len());
+            println!("wrong={}", wrong);
+            println!("first_wrong={}", first);
+        }
         // manifest_codec : edits of trivial moves (file n deleted at level L, added at level L + 1) and a mixed edit are encoded
         // and decoded by the real codec
         "manifest_codec" => {
